@@ -302,7 +302,7 @@ class Gen:
             "vibrato_rate": self.pick(0, 63, 0), "volume_fadeout": self.pick(0, 8192, 0),
             "instrument_name": iname, "volume_old": self.pick(0, 255, 64), "ins_finetune": self.pick(-128, 127, 0),
             "ins_relative_note": self.pick(-128, 127, 0), "editor_cursor": self.i32(0), "editor_selected_size": self.i32(0),
-            "version": 6, "max_version": self.pick(0, U32, 6),
+            "version": self.pick(0, U32, 6), "max_version": self.pick(0, U32, 6),
             "unused1": self.u32(0), "unused2": self.pick(0, 65535, 0), "unused3": self.pick(0, 65535, 0),
             "unused4": self.u32(0), "unused5": self.pick(0, 255, 0), "unused6": self.u32(0),
             "effect": effect,
